@@ -16,6 +16,7 @@
 import Orbiter.Expect
 import Orbiter.Lemmas.Reach
 import Orbiter.Lemmas.Sorted
+import Orbiter.Lemmas.Canonical
 namespace Orbiter.C17
 open Orbiter
 
@@ -77,6 +78,20 @@ theorem c17_roundtrip_exact (wr : Wiring) (w : World) (ops : List Op) (hg : w.or
     (reimportStep (run wr w ops).orb).2 = (run wr w ops).orb := by
   have hgood := run_good wr w ops hg
   exact ⟨validate_export _ hgood.1, reimport_exact _ hgood hp, (reimportStep_exact _ hgood hp).1⟩
+
+/-- **The export is canonical.** Two histories — any operations, in any order, over any wirings — that leave the module with the same
+content (same pause sets, same limit, same statistics at every key) leave it with the very same stored lists and export the very
+same genesis document, entry for entry: nothing in the document records the order in which the content came about. -/
+theorem c17_export_canonical (wr₁ wr₂ : Wiring) (w₁ w₂ : World) (ops₁ ops₂ : List Op) (h1 : w₁.orb.Good) (h2 : w₂.orb.Good)
+    (he : (run wr₁ w₁ ops₁).orb.Equiv (run wr₂ w₂ ops₂).orb) :
+    exportGenesis (run wr₁ w₁ ops₁).orb = exportGenesis (run wr₂ w₂ ops₂).orb := by
+  obtain ⟨e1, e2, e3, e4, e5⟩ := OrbState.lists_eq_of_equiv (run_good wr₁ w₁ ops₁ h1) (run_good wr₂ w₂ ops₂ h2) he
+  unfold exportGenesis
+  rw [e1, e2, e3, e4, e5, he.params]
+
+/-- Non-vacuity: the order the store keeps tells `[2, 3]` from `[3, 2]` — one content, one list (hypotheses met by the empty store:
+`c17_good_initially`, `Equiv_refl`). -/
+example : SortedBy intLt [2, 3] ∧ ¬ SortedBy intLt [3, 2] := by unfold SortedBy; decide
 
 /-- Every genesis-initialised store has its parameters set. -/
 theorem c17_params_set_by_genesis (g : Genesis) (o : OrbState) (h : initGenesis g = .ok o) : o.params.isSome = true := by
